@@ -1,0 +1,28 @@
+// +build verif
+
+// Package verifhook provides named instrumentation points for the runtime
+// verification harness. Without the build tag "verif" every call is an empty
+// inlinable function.
+package verifhook
+
+import "sync/atomic"
+
+var handler atomic.Value // func(name string)
+
+// Enabled reports whether the hooks are compiled in.
+const Enabled = true
+
+// SetHandler installs the function invoked at every Point (nil disables).
+func SetHandler(h func(name string)) {
+	if h == nil {
+		h = func(string) {}
+	}
+	handler.Store(h)
+}
+
+// Point is a named instrumentation point (failpoint / observation point).
+func Point(name string) {
+	if h := handler.Load(); h != nil {
+		h.(func(string))(name)
+	}
+}
